@@ -282,10 +282,11 @@ def suite_traces(ctx, dirs):
     work = tempfile.mkdtemp(prefix="suite-", dir=ctx.scratch())
     dirs.append(work)
     dst = os.path.join(work, "repo")
-    shutil.copytree(core.repo_path(), dst, ignore=shutil.ignore_patterns(".git", "__pycache__", "docs", "*.egg-info", "cbi.log"))
+    shutil.copytree(core.repo_path(), dst, symlinks=True,
+                    ignore=shutil.ignore_patterns(".git", "__pycache__", "docs", "*.egg-info", "cbi.log"))
     tf = os.path.join(work, "suite.ndjson")
     env = dict(os.environ, CBI_VERIF="1", CBI_VERIF_TRACE=tf, PYTHONPATH=dst, PYTHONDONTWRITEBYTECODE="1")
-    p = subprocess.run([sys.executable, "-m", "pytest", "-q", "-p", "no:cacheprovider", "-x", "tests"], cwd=dst, env=env,
+    p = subprocess.run([sys.executable, "-m", "pytest", "-q", "-p", "no:cacheprovider", "tests"], cwd=dst, env=env,
                        capture_output=True, text=True, timeout=900)
     ctx.cov["suite_run"] = (p.stdout.strip().splitlines() or [""])[-1]
     if not os.path.exists(tf):
